@@ -272,11 +272,23 @@ CHECKS['C11'] = {
         {'engine': 'numkernel', 'variant': 'san', 'profile': 'wide', 'quick': 640, 'thorough': 16000, 'avg_case_s': 0.1},
         {'engine': 'numkernel', 'variant': 'san', 'profile': 'float', 'quick': 640, 'thorough': 16000, 'avg_case_s': 0.1},
         {'engine': 'numkernel', 'variant': 'san', 'profile': 'gmp', 'quick': 480, 'thorough': 8000, 'avg_case_s': 0.1},
+        # configuration differential: the san (mpz) cfgdiff spawns ../../san-iN/bin/cfgdiff for the same cases and compares
+        {'engine': 'cfgdiff', 'variant': 'san', 'profile': 'i8', 'kv': {'bits': 8}, 'quick': 1600, 'thorough': 40000, 'avg_case_s': 0.01},
+        {'engine': 'cfgdiff', 'variant': 'san', 'profile': 'i16', 'kv': {'bits': 16}, 'quick': 1600, 'thorough': 40000, 'avg_case_s': 0.01},
+        {'engine': 'cfgdiff', 'variant': 'san', 'profile': 'i32', 'kv': {'bits': 32}, 'quick': 1600, 'thorough': 40000, 'avg_case_s': 0.01},
+        {'engine': 'cfgdiff', 'variant': 'san', 'profile': 'i64', 'kv': {'bits': 64}, 'quick': 1600, 'thorough': 40000, 'avg_case_s': 0.01},
+        # build-only jobs (0 cases): the bounded-coefficient binaries the san job spawns
+        {'engine': 'cfgdiff', 'variant': 'san-i8', 'quick': 0, 'thorough': 0},
+        {'engine': 'cfgdiff', 'variant': 'san-i16', 'quick': 0, 'thorough': 0},
+        {'engine': 'cfgdiff', 'variant': 'san-i32', 'quick': 0, 'thorough': 0},
+        {'engine': 'cfgdiff', 'variant': 'san-i64', 'quick': 0, 'thorough': 0},
     ],
     'prefixes': ['C11.'],
     'required_counters': ['i8.units_run', 'op.div', 'op.add_mul', 'op.assign', 'op.sqrt', 'op.smod_2exp', 'op.compare', 'op.bounded_throwing_interface',
-                          'ok.overflow', 'ok.unknown_overflow', 'ok.nan', 'ok.inexact'],
-    'rule': ('evaluations = single checked-number calls judged against the exact GMP result (relation truthful, directed rounding on the right side, overflow/infinity/NaN classification truthful, '
+                          'ok.overflow', 'ok.unknown_overflow', 'ok.nan', 'ok.inexact', 'steps', 'ovf', 'cmp_text_equal', 'child_runs'],
+    'rule': ('cfgdiff: case = seeded script of 5-12 steps on one domain (polyhedra, grids, BD shapes, octagons, MIP, PIP, linear expressions / coefficient kernel) run in the unbounded (mpz) build '
+             'and in the checked-int8/16/32/64 builds; evaluations = steps whose bounded-build outcome was compared with the unbounded build (OVERFLOW accepted, otherwise text or semantic equality). '
+             'numkernel: evaluations = single checked-number calls judged against the exact GMP result (relation truthful, directed rounding on the right side, overflow/infinity/NaN classification truthful, '
              'policy contracts respected); profile i8 enumerates all 256x256 raw operand patterns (x 5-6 rounding directions, 4 policies, 8 binary + 2 fused + 7 unary + 6 2exp operations, comparisons, '
              'conversions from all 8/16-bit sources, bounded throwing operators) - exhaustive iff counter i8.units_run equals i8.units_in_tier; the other profiles draw boundary-biased operands for '
              '16/32/64-bit integers, float/double/long double (volatile, incl. denormals, infinities, NaN) and mpz/mpq; distinct_nontrivial = distinct (op, type, policy, direction, operand/result class, '
